@@ -582,3 +582,78 @@ PROPS["C01"] = {"jobs": c01_jobs, "assumptions": ENC_ASSUME + [
     "some against the real libstdc++ unordered_map with concrete ids",
     "common flags, protocol version and payload-type byte are concrete per shape (a symbolic value makes the decoder's segment/type dispatch symbolic for CBMC)"],
     "level": "bounded symbolic model checking of the composed encode->decode pipeline per batch shape, all contents symbolic"}
+
+
+# ------------------------------------------------------------------ C13 payload builders
+def c13_jobs():
+    jobs = []
+
+    def add(defs, tier="quick", entry="h_build"):
+        n = sum(v for k, v in defs.items() if k in ("N", "PN", "V", "PV", "S0", "S1", "S2", "S3", "P0", "P1", "P2", "P3") and v > 0)
+        jobs.append(Job("c13.cpp", entry, defs=defs, unwind=200, in_max=n + 48, mem_gb=3, tier=tier,
+                        sym="all data bytes (final and earlier), all header field values set through the API (ids, flags, checksums, counters), string characters (non-NUL)",
+                        outside="data longer than 64 bytes (72 for re-set priors), strings longer than 5 characters, more than 5 stream ids / vendor bytes; embedded NULs; lengths are concrete shape parameters"))
+
+    for cls in (1, 2, 3, 4, 5):
+        lens = {1: (0, 1, 8), 2: (0, 8, 12, 16, 20, 24, 32, 48, 64, 9), 3: (0, 1, 8), 4: (0, 1, 46), 5: (0, 2, 6, 8)}[cls]
+        for n in lens:
+            for pn in (-1, 0, 4, n + 3):
+                q = (pn in (-1, n + 3)) and n in (0, 8, 12, 64, 46, 6)
+                add({"CLS": cls, "N": n, "PN": pn}, "quick" if q else "thorough")
+        if cls in (1, 2):
+            add({"CLS": cls}, "quick", entry="h_dlc")
+    # capture-module status: string length parities, re-set after longer / shorter / different content
+    for (s, v) in (((0, 0, 0, 0), 0), ((1, 2, 0, 3), 0), ((2, 1, 3, 0), 3), ((5, 0, 1, 4), 2), ((1, 1, 1, 1), 1)):
+        for (p, pv) in ((None, -1), ((3, 3, 3, 3), 4), ((0, 1, 0, 1), 0), ((2, 0, 4, 1), 1)):
+            d = {"CLS": 6, "S0": s[0], "S1": s[1], "S2": s[2], "S3": s[3], "V": v, "PV": pv}
+            if p:
+                d.update({"P0": p[0], "P1": p[1], "P2": p[2], "P3": p[3]})
+            q = (p is None or p == (3, 3, 3, 3)) and s in ((1, 2, 0, 3), (2, 1, 3, 0), (0, 0, 0, 0))
+            add(d, "quick" if q else "thorough")
+    # interface status: count / vendor-length parities, re-set after longer / shorter
+    for n in (0, 1, 2, 3, 5):
+        for v in (0, 1, 2, 3):
+            for (pn, pv) in ((-1, -1), (n + 1, v), (n + 2, v + 1), (max(n - 1, 0), v + 2), (4, 4)):
+                q = (pn in (-1, n + 1, 4)) and (n, v) in ((0, 0), (1, 2), (2, 1), (3, 3), (1, 0))
+                add({"CLS": 7, "N": n, "V": v, "PN": pn, "PV": pv}, "quick" if q else "thorough")
+    return jobs
+
+
+PROPS["C13"] = {"jobs": c13_jobs, "assumptions": COMMON_ASSUME + [
+    "data / string / list lengths (final and of the earlier setData call) are concrete shape parameters; contents and header field values are symbolic",
+    "'depends only on the final logical content' is checked as a two-object self-composition: an object that was set before with other data and a fresh object, after the same final calls, have equal raw bytes",
+    "prior states are API-built (default construction plus earlier setter calls), not arbitrary raw buffers"],
+    "level": "bounded symbolic model checking of the payload builders against getters, wire form, validators and a fresh-object twin"}
+
+
+# ------------------------------------------------------------------ C20 uninitialised memory (two-run self-composition)
+def c20_jobs():
+    jobs = []
+    sym2 = "the inputs are shared by both runs; every fresh allocation, uninitialised local and LLVM undef is an independent arbitrary value in each run"
+    for d, tier in ((enc_shape([8], maxb=64, minb=64), "quick"), (enc_shape([8], [2], minb=40), "quick"), (enc_shape([8], [3], minb=0), "quick"), (enc_shape([17], maxb=40, minb=36), "quick"),
+                    (enc_shape([8, 8], [1, 3], minb=64), "quick"), (enc_shape([8], [0xFF], minb=33), "thorough"), (enc_shape([8, 41, 8], minb=64), "thorough"), (enc_shape([33], maxb=40, minb=40), "thorough")):
+        jobs.append(Job("c20.cpp", "h_c20_encode", defs=d, unwind=1200, tier=tier, in_max=enc_in_max(d), mem_gb=4, sym=ENC_SYM + "; " + sym2, outside=ENC_OUT))
+    for (n, mt, pt, q) in ((32, 1, 0xFE, 1), (40, 1, 1, 0), (48, 1, 1, 0), (32, 1, 3, 0), (40, 1, 8, 0), (40, 1, 7, 0), (40, 3, 0xFE, 1), (24, 2, 0x10, 1), (48, 0xFF, 0x7F, 1), (64, 3, 1, 0), (64, 3, 2, 0), (56, 1, 2, 0)):
+        jobs.append(Job("c20.cpp", "h_c20_decode", defs={"NB": n, "VER": 1, "DMT": mt, "DPT": pt}, unwind=4 * n + 40, unwindset=dec_unwindset(n), tier="quick" if q else "thorough", in_max=n + 8, mem_gb=8,
+                        sym="every frame byte except version, message type, the first message's flags, payload type and declared length; " + sym2, outside="frames > 64 bytes", timeout=None if q else 1800))
+    for (mt, dt, dlc, n) in ((3, 2, 4, 40), (3, 2, 9, 44), (3, 4, 3, 36), (2, 0, 0, 52), (2, 0, 0, 64)):
+        jobs.append(Job("c20.cpp", "h_c20_tecmp", defs={"NB": n, "TMT": mt, "TDT": dt, "TDLC": dlc}, unwind=220,
+                        unwindset={("TECMP7Decoder", None): 5, ("_M_realloc_insert", None): 5, ("_M_release", None): 3, ("_Sp_counted", None): 3},
+                        tier="quick" if (mt, dt, n) in ((3, 2, 40), (3, 4, 36), (2, 0, 52)) else "thorough", in_max=n + 8, mem_gb=6,
+                        sym="every TECMP frame byte except routing byte, message type, data type, declared length and dlc; " + sym2, outside="frames > 64 bytes; TECMP capture-module status"))
+    for (a, b, t) in ((8, 5, 3), (1, 0, 0), (16, 16, 8)):
+        jobs.append(Job("c20.cpp", "h_c20_reassembly", defs={"SL0": a, "SL1": b, "STR": t}, unwind=300, unwindset={("Decoder6decode", None): 3, ("_M_realloc_insert", None): 3, ("_Hashtable", None): 4, ("_M_release", None): 3},
+                        tier="quick" if (a, b) == (8, 5) else "thorough", in_max=2 * (24 + a + b + t) + 8, mem_gb=8, variant="mapmodel",
+                        sym="all bytes of both segments incl. trailing bytes, start sequence counter; " + sym2, outside="more than two segments"))
+    for (bs, bv) in ((3, 1), (0, 0), (2, 2), (5, 3)):
+        jobs.append(Job("c20.cpp", "h_c20_build", defs={"BS": bs, "BV": bv}, unwind=120, tier="quick" if (bs, bv) in ((3, 1), (2, 2)) else "thorough", in_max=64, mem_gb=3,
+                        sym="string characters, stream ids, vendor bytes, uptime; " + sym2, outside="strings > 5 characters"))
+    return jobs
+
+
+PROPS["C20"] = {"jobs": c20_jobs, "assumptions": COMMON_ASSUME + [
+    "definedness is decided as non-interference: two runs on the same symbolic inputs with independent arbitrary values for every fresh allocation / uninitialised local / undef must give bit-identical outputs; "
+    "an uninitialised read that cannot change any output is not flagged",
+    "the byte-exact model comparisons of C07 (every frame byte incl. padding) and C04/C05 (every delivered byte) also exclude uninitialised output bytes; this check adds builders, TECMP conversion and reassembly",
+    "shapes as in the underlying harnesses (concrete sizes)"],
+    "level": "bounded symbolic model checking of a two-run self-composition (non-interference of uninitialised memory with outputs)"}
